@@ -55,7 +55,10 @@ MANIFEST = {
             'run (histogram in the evidence) under seeded random-walk and PCT '
             'schedules with virtual time; a queued successor and a re-run '
             'after the stop are checked against their own expected logs. '
-            'Sampled schedules.',
+            'Sampled schedules.'
+            ' In a quarter of the scenarios the second stop is issued the'
+            ' moment the controller names the job as current; job names c'
+            'arry blanks at either end.',
     'note': 'Trusted: scheduler shims, virtual clock. Promptness is counted in '
             'the job thread\'s own scheduling steps (5000), never wall clock. '
             'The instruction in progress when the stop returns may finish and '
